@@ -206,6 +206,13 @@ def xnMinusOneInv (inv : R → R) (d0 d1 : Domain R) : List R :=
   let t := pw d1.gen (2^d0.m)
   (iter t (pw d1.g (2^d0.m)) ratio).map (fun v => inv (v - 1))
 
+/-- **when the division is defined**: `X^{n₀} − 1` has no zero on the coset `g·⟨ω₁⟩` of the big domain. The values of
+    `x^{n₀}` on the coset are the `ρ = n₁/n₀` numbers `g^{n₀}·tⁱ`, the `ρ`-th roots of `g^{n₁}`; one of them is 1 exactly
+    when `g^{n₁} = 1` (Props/C20: `C20_division_defined`, `C20_division_undefined`; for ratio 1 the single value IS
+    `g^{n₁}`). With the default shift (a generator of the whole multiplicative group, of order `q − 1 > n₁`) the division
+    is always defined; `fft.WithShift` can choose a shift for which it is not. -/
+def divisionDefined [DecidableEq R] (d1 : Domain R) : Bool := decide (pw d1.g (2^d1.m) ≠ 1)
+
 /-- `DivideByXMinusOne(a, [d0, d1])`; `none` = `ErrMustBeLagrangeCoset` -/
 def divideByXMinusOne (kers : List Nat) (inv : R → R) (d0 d1 : Domain R) (a : Poly R) : Option (Poly R) :=
   if a.basis ≠ .lagrangeCoset then none else
@@ -225,6 +232,22 @@ def runProd : R → List R → List R
     `Z[0]` is not multiplied by `t[0]⁻¹`, both are 1) -/
 def grandProduct (inv : R → R) (ns ds : List R) : List R :=
   List.zipWith (fun c t => c * inv t) (runProd 1 ns) (runProd 1 ds)
+
+/-- `l[r.1 : r.2]` -/
+def slice (l : List R) (r : Nat × Nat) : List R := (l.drop r.1).take (r.2 - r.1)
+
+/-- the last loop of `BuildRatioCopyConstraint` for ANY list of ranges handed to the work function (ratios.go:230):
+    `work(start, end)`: `tInv := BatchInvert(t[start:end]); for i in start..end: coeffs[i] *= tInv[i-start]`;
+    the chunks' results in order of the ranges -/
+def chunkedDiv (binv : List R → List R) (ranges : List (Nat × Nat)) (cs ts : List R) : List R :=
+  ranges.flatMap (fun r => List.zipWith (· * ·) (slice cs r) (binv (slice ts r)))
+
+/-- the grand product as `BuildRatioCopyConstraint` computes it: running products, entry 0 left alone
+    (`start++; end++`), entries `1 … n-1` divided chunk by chunk over `ranges` (a partition of `[0, n-1)`) -/
+def grandProductChunked (binv : List R → List R) (ranges : List (Nat × Nat)) (ns ds : List R) : List R :=
+  let cs := runProd 1 ns
+  let ts := runProd 1 ds
+  cs.take 1 ++ chunkedDiv binv ranges (cs.drop 1) (ts.drop 1)
 
 /-- `putInExpectedFormFromLagrangeRegular` -/
 def putInExpectedForm (kers : List Nat) (d : Domain R) (c : List R) (b : Basis) (br : Bool) (size : Nat) : Poly R :=
@@ -537,6 +560,27 @@ def exprOf {q : Nat} (id : Nat) (i : Nat) (x : List (ZM q)) : ZM q :=
 def showOpt {q : Nat} (o : Option (ZM q)) : String :=
   match o with | some v => toHex v.val | none => "panic"
 
+/-- `divxs` / `divxu`: `DivideByXMinusOne` on domains with the coset shift `s` (fft.WithShift). `divxs` lines must lie
+    inside the domain where the division is defined (`divisionDefined`) and are answered in full; `divxu` lines must lie
+    outside and are answered by the shape of the result only (no error, no panic; the values there are not specified). -/
+def divxShift (wantDefined : Bool) (curve qs Ls ws gs m0s m1s ss form cs script : String) : String :=
+  match parseCtx curve qs Ls ws gs, parseForm form, parseHex m0s, parseHex m1s, parseHex ss with
+  | some c0, some (b, br), some m0, some m1, some s =>
+    if s = 0 ∨ s ≥ c0.q ∨ m0 > m1 ∨ m1 > c0.L then "bad-op" else
+    let c : Ctx := { c0 with g := s }
+    if divisionDefined (c.dom m1) != wantDefined then "bad-op" else
+    match runScript c 0 (newPoly (parseVec c.q cs) b br) script with
+    | some (a, _) =>
+      if a.basis ≠ .lagrangeCoset then "err:basis" else
+      if a.size = 0 ∨ a.coeffs.length ≠ 2^m1 ∨ a.coeffs.length / a.size > 2^(m1-m0) then "bad-op" else
+      match divideByXMinusOne c.kers zinv (c.dom m0) (c.dom m1) a with
+      | some r =>
+        if wantDefined then dump r else
+        "undef " ++ showForm r.basis r.bitrev ++ "/" ++ intToHex r.shift ++ "/" ++ toHex r.size ++ "/" ++ toHex r.coeffs.length
+      | none => "err:basis"
+    | none => "bad-op"
+  | _, _, _, _, _ => "bad-op"
+
 def handle1 (args : List String) : String :=
   match args with
   | "expr" :: curve :: qs :: Ls :: ws :: gs :: resform :: rmode :: eid :: ks :: rest =>
@@ -568,6 +612,10 @@ def handle1 (args : List String) : String :=
         | none => "err:basis"
       | none => "bad-op"
     | _, _, _, _ => "bad-op"
+  | ["divxs", curve, qs, Ls, ws, gs, m0s, m1s, ss, form, cs, script] =>
+    divxShift true curve qs Ls ws gs m0s m1s ss form cs script
+  | ["divxu", curve, qs, Ls, ws, gs, m0s, m1s, ss, form, cs, script] =>
+    divxShift false curve qs Ls ws gs m0s m1s ss form cs script
   | "ratios" :: curve :: qs :: Ls :: ws :: gs :: resform :: betas :: xs :: ks :: rest =>
     match parseCtx curve qs Ls ws gs, parseForm resform with
     | some c, some (b, br) =>
